@@ -402,7 +402,7 @@ class EntryWalker:
             if isinstance(st, ast.Return) and st.value is not None and isinstance(st.value, ast.Call):
                 return self.expr(st.value, inline)
             return []
-        if isinstance(st, ast.Raise):
+        if isinstance(st, (ast.Raise, ast.Import, ast.ImportFrom)):
             return []
         if isinstance(st, ast.If):
             # `if debug: logger…`, `if not global_data.config: ask; return`, `if built is None: raise`
@@ -451,7 +451,8 @@ class EntryWalker:
             if nm == "Header.clear":
                 out += self.clear_steps()
             elif nm == "read_header":
-                out.append(("run", "read_header", "RHeaderOnly" if self.header_only else "RAll"))
+                out.append(("run", "read_header", self.header_only if isinstance(self.header_only, tuple) else
+                            "RHeaderOnly" if self.header_only else "RAll"))
             elif nm == "read_cert":
                 out += self.cert_steps()
             elif nm == "Lexer":
@@ -460,8 +461,8 @@ class EntryWalker:
                 out.append(("run", "build", "RAll"))
             elif nm in inline:
                 out += inline[nm]()
-            elif nm in SKIP_CALLS or nm is None:
-                pass
+            elif nm in SKIP_CALLS or nm is None or nm in AMBIENT_CALLS:
+                pass            # writes of ambient process state are listed (and judged) by read_ambient_writes
             else:
                 base = nm.split(".")[-1]
                 if base in ("Configuration", "GlobalData", "Path", "Header", "copy", "toJSON", "cert_config_to_string", "list", "float",
@@ -525,6 +526,287 @@ def header_parse_header_only(src: Path) -> tuple[bool, list[str]]:
                     if isinstance(n, ast.Name) and n.id.startswith("__") and n.id in defs:
                         todo.append(n.id)
     return (not why), why
+
+
+# ----------------------------------------------------------------------------- round 4: what can a phase READ?  (closure over the package)
+# `header_parse_header_only` looks at header_parse.py and the names it imports.  A check that reads the jmc.txt names while the header is
+# parsed can also sit in compiling.read_header itself, behind a function-local import, behind get_cert(), in a method of a class the phase
+# uses, or behind getattr(DataPack, ...).  `phase_reads` starts from the phase's function and follows every package-level definition that
+# reachable code refers to BY NAME (functions, classes with all their methods, module-level assignments; imports at any level and position,
+# re-exports, module aliases) and reports what the reachable code mentions: a jmc.txt name attribute on any receiver, the name `DataPack`
+# used at run time (not in an annotation), the JMC.python environment, the working directory.  Calls through an attribute of an unknown
+# object are not followed (the run-time read tracer of c12_run.py covers those: every class-level name read before read_cert is recorded).
+
+class Package:
+    def __init__(self, src: Path):
+        self.src = src
+        self.trees = {}
+        for p_ in sorted(src.rglob("*.py")):
+            rel = p_.relative_to(src).as_posix()
+            if rel.startswith("tests/"):
+                continue
+            try:
+                self.trees[rel] = parse(p_)
+            except SyntaxError as e:
+                raise Untranslatable(f"{rel}: {e}")
+        self.defs = {}      # rel -> {name: node}
+        self.imports = {}   # rel -> {name: (rel2 | None, orig | None)}   orig None = the name IS module rel2
+        for rel, tree in self.trees.items():
+            d = {}
+            for st in tree.body:
+                if isinstance(st, (ast.FunctionDef, ast.AsyncFunctionDef, ast.ClassDef)):
+                    d[st.name] = st
+                elif isinstance(st, ast.Assign):
+                    for tg in st.targets:
+                        if isinstance(tg, ast.Name):
+                            d[tg.id] = st
+                elif isinstance(st, ast.AnnAssign) and isinstance(st.target, ast.Name) and st.value is not None:
+                    d[st.target.id] = st
+            self.defs[rel] = d
+            imp = {}
+            for n in ast.walk(tree):
+                if isinstance(n, ast.ImportFrom):
+                    base = self.resolve_from(rel, n.level, n.module)
+                    for a in n.names:
+                        nm = a.asname or a.name
+                        if base is None:
+                            continue
+                        sub = self.module_file((base + "/" + a.name) if base else a.name)
+                        modf = self.module_file(base)
+                        if modf is not None and (a.name in self.defs_of(modf) or sub is None):
+                            imp[nm] = (modf, a.name)
+                        elif sub is not None:
+                            imp[nm] = (sub, None)
+                elif isinstance(n, ast.Import):
+                    for a in n.names:
+                        if a.name == "jmc" or a.name.startswith("jmc."):
+                            f = self.module_file("/".join(a.name.split(".")[1:]))
+                            if f is not None and a.asname:
+                                imp[a.asname] = (f, None)
+            self.imports[rel] = imp
+
+    def defs_of(self, rel):
+        # may be asked before self.defs[rel] is filled (import cycle in the scan order): compute on demand
+        if rel not in self.defs:
+            tree = self.trees.get(rel)
+            return {getattr(st, "name", None) for st in (tree.body if tree else [])} | \
+                {tg.id for st in (tree.body if tree else []) if isinstance(st, ast.Assign) for tg in st.targets if isinstance(tg, ast.Name)}
+        return self.defs[rel]
+
+    def resolve_from(self, rel, level, module):
+        """package-relative folder path ('' = jmc) of `from <level dots><module> import …`, None if outside the package"""
+        parts = rel.split("/")[:-1]
+        if level == 0:
+            if module is None or not (module == "jmc" or module.startswith("jmc.")):
+                return None
+            return "/".join(module.split(".")[1:])
+        up = parts[:len(parts) - (level - 1)] if level > 1 else parts
+        if level - 1 > len(parts):
+            return None
+        return "/".join(up + (module.split(".") if module else []))
+
+    def module_file(self, path):
+        if path is None:
+            return None
+        for cand in ([path + ".py"] if path else []) + [(path + "/" if path else "") + "__init__.py"]:
+            if cand in self.trees:
+                return cand
+        return None
+
+    def lookup(self, rel, name, depth=0):
+        """(rel2, node) of the package-level definition `name` denotes in module rel (following imports / re-exports), or ('module', rel2)"""
+        if depth > 6:
+            return None
+        if name in self.defs.get(rel, {}):
+            return (rel, self.defs[rel][name])
+        if name in self.imports.get(rel, {}):
+            rel2, orig = self.imports[rel][name]
+            if orig is None:
+                return ("module", rel2)
+            return self.lookup(rel2, orig, depth + 1)
+        return None
+
+
+def runtime_nodes(node):
+    """every node under `node` except annotations (which are not evaluated on a read path that matters)"""
+    skip = set()
+    for n in ast.walk(node):
+        if isinstance(n, (ast.FunctionDef, ast.AsyncFunctionDef)):
+            if n.returns is not None:
+                skip.update(id(x) for x in ast.walk(n.returns))
+            for a in n.args.args + n.args.kwonlyargs + n.args.posonlyargs + [x for x in (n.args.vararg, n.args.kwarg) if x]:
+                if a.annotation is not None:
+                    skip.update(id(x) for x in ast.walk(a.annotation))
+        if isinstance(n, ast.AnnAssign):
+            skip.update(id(x) for x in ast.walk(n.annotation))
+    return [n for n in ast.walk(node) if id(n) not in skip]
+
+
+def phase_reads(pkg: Package, rel: str, func: str, stop=()) -> dict:
+    """what the code reachable from function `func` of module `rel` mentions (see above).  `stop`: names not followed (the next phases)."""
+    start = pkg.lookup(rel, func)
+    if start is None or start[0] == "module":
+        raise Untranslatable(f"{rel}: function {func} not found")
+    todo, seen = [start], set()
+    names, pyenv, cwd, why = set(), False, False, []
+    while todo:
+        r, node = todo.pop()
+        if id(node) in seen:
+            continue
+        seen.add(id(node))
+        label = f"{r}:{getattr(node, 'name', None) or ast.unparse(node)[:30]}"
+        for n in runtime_nodes(node):
+            if isinstance(n, ast.Attribute) and n.attr in NAME_ATTRS and isinstance(n.ctx, ast.Load):
+                names.add(n.attr)
+                why.append(f"{label}:{n.lineno}: {ast.unparse(n)}")
+            elif isinstance(n, ast.Constant) and isinstance(n.value, str) and n.value in NAME_ATTRS:
+                names.add(n.value)          # getattr(x, "private_name")
+                why.append(f"{label}:{n.lineno}: {n.value!r}")
+            elif isinstance(n, ast.Name) and isinstance(n.ctx, ast.Load):
+                if n.id == "DataPack":
+                    names.update(NAME_ATTRS)
+                    why.append(f"{label}:{n.lineno}: DataPack (used at run time)")
+                elif n.id == "ISOLATED_ENVIRONMENT":
+                    pyenv = True
+                    why.append(f"{label}:{n.lineno}: ISOLATED_ENVIRONMENT")
+                if n.id in stop:
+                    continue
+                hit = pkg.lookup(r, n.id)
+                if hit is not None and hit[0] != "module":
+                    todo.append(hit)
+            elif isinstance(n, ast.Attribute) and isinstance(n.value, ast.Name) and isinstance(n.ctx, ast.Load):
+                hit = pkg.lookup(r, n.value.id)
+                if hit is not None and hit[0] == "module":       # module_alias.name
+                    h2 = pkg.lookup(hit[1], n.attr)
+                    if h2 is not None and h2[0] != "module":
+                        todo.append(h2)
+                if ast.unparse(n) in ("os.getcwd", "Path.cwd"):
+                    cwd = True
+                if n.attr == "DataPack":
+                    names.update(NAME_ATTRS)
+                    why.append(f"{label}:{n.lineno}: {ast.unparse(n)} (used at run time)")
+    return dict(names=sorted(names), pyenv=pyenv, cwd=cwd, why=why[:12], definitions_reached=len(seen))
+
+
+# the calls that make up a compile may only be made by the three modelled entry points (a fourth entry point needs its own step list)
+ENTRY_CALLS = {"Lexer": {"compile/compiling.py:compile_jmc", "compile/test_compile.py:build", "api/_py_jmc.py:__build"},
+               "read_header": {"compile/compiling.py:compile_jmc", "compile/test_compile.py:build", "api/_py_jmc.py:__build"},
+               "read_cert": {"compile/compiling.py:compile_jmc", "compile/test_compile.py:build", "api/_py_jmc.py:__build"},
+               "Header.clear": {"compile/compiling.py:compile_jmc", "compile/test_compile.py:build", "api/_py_jmc.py:__build"},
+               "compile_jmc": {"terminal_commands.py:compile_"},
+               "parse_header": {"compile/compiling.py:read_header"}}
+
+
+def check_entry_callers(pkg: Package) -> None:
+    for rel, tree in pkg.trees.items():
+        for fn in [n for n in ast.walk(tree) if isinstance(n, (ast.FunctionDef, ast.AsyncFunctionDef))]:
+            for n in ast.walk(fn):
+                nm = call_name(n) if isinstance(n, ast.Call) else None
+                if nm in ENTRY_CALLS and f"{rel}:{fn.name}" not in ENTRY_CALLS[nm]:
+                    inner = [f2 for f2 in ast.walk(fn) if f2 is not fn and isinstance(f2, (ast.FunctionDef, ast.AsyncFunctionDef)) and n in list(ast.walk(f2))]
+                    if inner:
+                        continue        # reported for the inner function
+                    raise Untranslatable(f"{rel}:{fn.name}:{n.lineno} calls {nm}(…): a compile entry point that the model does not have")
+
+
+# ----------------------------------------------------------------------------- round 4: writes of AMBIENT process state
+# A compile can see the working directory, os.environ, sys.path, the imported modules, the signal handlers, the locale, the warnings
+# filters and the logging configuration; it must leave them as it found them, on every way out (C12_ambient_preserved needs
+# `preserves_along`).  Every statement of the package that writes one of them is listed; on a compile path (jmc/compile, jmc/api) the write
+# must sit in a `try` whose `finally` performs a write of the same kind again (the restore), or itself in a `finally`.
+
+AMBIENT = ["cwd", "environ", "sys.path", "sys.modules", "signal", "locale", "warnings", "logging"]
+AMBIENT_CALLS = {
+    "os.chdir": "cwd", "os.fchdir": "cwd", "chdir": "cwd", "contextlib.chdir": "cwd",
+    "os.putenv": "environ", "os.unsetenv": "environ", "os.environ.update": "environ", "os.environ.pop": "environ", "os.environ.setdefault": "environ",
+    "os.environ.clear": "environ", "environ.update": "environ", "environ.pop": "environ", "environ.setdefault": "environ", "putenv": "environ",
+    "sys.path.insert": "sys.path", "sys.path.append": "sys.path", "sys.path.extend": "sys.path", "sys.path.remove": "sys.path", "sys.path.pop": "sys.path",
+    "site.addsitedir": "sys.path", "sys.modules.pop": "sys.modules", "sys.modules.update": "sys.modules", "importlib.reload": "sys.modules",
+    "importlib.import_module": "sys.modules", "__import__": "sys.modules", "import_module": "sys.modules",
+    "signal.signal": "signal", "signal.alarm": "signal", "signal.setitimer": "signal",
+    "locale.setlocale": "locale", "setlocale": "locale",
+    "warnings.simplefilter": "warnings", "warnings.filterwarnings": "warnings", "warnings.resetwarnings": "warnings", "simplefilter": "warnings",
+    "filterwarnings": "warnings",
+    "logging.basicConfig": "logging", "logging.disable": "logging", "logging.setLoggerClass": "logging", "logging.captureWarnings": "logging",
+    "sys.setrecursionlimit": "sys.path", "sys.settrace": "signal", "sys.setprofile": "signal", "os.umask": "cwd", "time.tzset": "locale",
+}
+AMBIENT_STORE_PREFIX = {"os.environ": "environ", "environ": "environ", "sys.path": "sys.path", "sys.modules": "sys.modules", "sys.stdout": "logging",
+                        "sys.stderr": "logging", "sys.excepthook": "signal", "sys.argv": "environ"}
+COMPILE_PATH_PREFIXES = ("compile/", "api/")
+# functions of the compile package that run when a module is IMPORTED, not when a project is compiled (checked: every call stands at module level)
+AMBIENT_IMPORT_TIME = {("compile/log.py", "Logger"): "logger factory: `logger = Logger(__name__)` at the top of every module"}
+
+
+def only_called_at_module_level(pkg: "Package", name: str) -> bool:
+    for rel, tree in pkg.trees.items():
+        for fn in [n for n in ast.walk(tree) if isinstance(n, (ast.FunctionDef, ast.AsyncFunctionDef, ast.Lambda))]:
+            for n in ast.walk(fn):
+                if isinstance(n, ast.Call) and call_name(n) in (name, "log." + name):
+                    return False
+    return True
+
+
+def read_ambient_writes(pkg: Package) -> list[dict]:
+    out = []
+    for rel, tree in pkg.trees.items():
+        parents = {}
+        for n in ast.walk(tree):
+            for ch in ast.iter_child_nodes(n):
+                parents[ch] = n
+
+        def enclosing(n):
+            fn = None
+            tries = []          # (Try node, in_finally)
+            q = n
+            while q in parents:
+                par = parents[q]
+                if isinstance(par, ast.Try):
+                    tries.append((par, any(q is x for x in par.finalbody)))
+                if fn is None and isinstance(par, (ast.FunctionDef, ast.AsyncFunctionDef)):
+                    fn = par
+                q = par
+            return fn, tries
+
+        def add(n, what, fieldname):
+            fn, tries = enclosing(n)
+            restored = False
+            for tr, in_finally in tries:
+                if in_finally:
+                    restored = True
+                    break
+                for x in tr.finalbody:
+                    for y in ast.walk(x):
+                        if kind_of(y) == fieldname:
+                            restored = True
+            if isinstance(parents.get(n), ast.withitem):       # `with contextlib.chdir(...)`: restored by the context manager
+                restored = True
+            fname = fn.name if fn is not None else "<module>"
+            import_time = (rel, fname) in AMBIENT_IMPORT_TIME and only_called_at_module_level(pkg, fname)
+            out.append(dict(file=rel, func=fname, line=n.lineno, text=ast.unparse(n)[:70], field=fieldname,
+                            on_compile_path=rel.startswith(COMPILE_PATH_PREFIXES) and fn is not None and not import_time, restored=restored,
+                            **(dict(import_time=AMBIENT_IMPORT_TIME[(rel, fname)]) if import_time else {})))
+
+        def kind_of(n):
+            if isinstance(n, ast.Call):
+                nm = call_name(n)
+                if nm in AMBIENT_CALLS:
+                    return AMBIENT_CALLS[nm]
+                if nm and nm.endswith((".addHandler", ".removeHandler", ".setLevel")) and "logg" in nm.lower():
+                    return "logging"
+            if isinstance(n, (ast.Assign, ast.AugAssign, ast.AnnAssign, ast.Delete)):
+                tgs = n.targets if isinstance(n, (ast.Assign, ast.Delete)) else [n.target]
+                for tg in tgs:
+                    base = tg.value if isinstance(tg, ast.Subscript) else tg
+                    txt = ast.unparse(base)
+                    if txt in AMBIENT_STORE_PREFIX and (isinstance(tg, ast.Subscript) or isinstance(base, ast.Attribute)):
+                        return AMBIENT_STORE_PREFIX[txt]
+            return None
+        for n in ast.walk(tree):
+            k = kind_of(n)
+            if k:
+                add(n, ast.unparse(n)[:70], k)
+    out.sort(key=lambda d: (d["file"], d["line"]))
+    return out
 
 
 # ----------------------------------------------------------------------------- set iteration sites
@@ -879,7 +1161,18 @@ def translate(repo: Path) -> dict:
     pyenv = read_pyenv(src)
     lex = lexer_init_steps(src, pyenv)
     header_only, why = header_parse_header_only(src)
-    w = EntryWalker(hdr, cert, lex, header_only)
+    # round 4: the read set of the header phase by closure over the package, from compiling.read_header
+    pkg = Package(src)
+    check_entry_callers(pkg)
+    hreads = phase_reads(pkg, "compile/compiling.py", "read_header")
+    why = why + [x for x in hreads["why"] if x not in why]
+    hnames = sorted(set(hreads["names"]) | {a for a in NAME_ATTRS if any(("." + a) in x for x in why)})
+    if not header_only and not hnames and not hreads["pyenv"]:
+        hnames = list(NAME_ATTRS)       # the older syntactic check objects to something the closure does not see: stay conservative
+    header_rs = ("RHeaderPlus", [("OS", a) for a in AMBIENT] + [("DF", a) for a in hnames if a in NAME_ATTRS]
+                 + (["PyEnv", "PyPending"] if hreads["pyenv"] or any("ISOLATED_ENVIRONMENT" in x for x in why) else []))
+    header_only = not hnames and not hreads["pyenv"] and header_only
+    w = EntryWalker(hdr, cert, lex, header_rs)
 
     comp = parse(src / "compile/compiling.py")
     compile_jmc = find_func(comp, "compile_jmc")
@@ -893,9 +1186,15 @@ def translate(repo: Path) -> dict:
     pb = lambda: w.function(find_func(pcls, "__build"), {})
     pyjmc = w.function(find_func(pcls, "__init__"), {"self.__build": pb})
 
-    fields = [("HF", f) for f in hdr["fields"]] + [("DF", a) for a in sorted(assigned)] + ["PyEnv", "PyPending"]
+    fields = [("HF", f) for f in hdr["fields"]] + [("DF", a) for a in sorted(assigned)] + ["PyEnv", "PyPending"] + [("OS", a) for a in AMBIENT]
+    unknown = [a for a in hnames if ("DF", a) not in fields]
+    if unknown:
+        raise Untranslatable(f"header phase reads DataPack.{unknown} which read_cert does not assign")
     sites_, attrs_ = read_set_sites(src), set_attrs(src)
     return dict(header=hdr, cert=cert, pyenv=pyenv, fields=fields, header_only=header_only, header_only_why=why,
+                header_phase_reads=dict(names=hnames, pyenv=hreads["pyenv"], cwd=hreads["cwd"], definitions_reached=hreads["definitions_reached"]),
+                ambient=[("OS", a) for a in AMBIENT], ambient_writes=read_ambient_writes(pkg), header_readset=header_rs,
+                simple=all(st[0] in ("guard", "run") or (st[0] == "assign" and st[2][0] in ("const", "input")) for l_ in (cli, test, pyjmc) for st in l_),
                 entries=dict(CLI=cli, TEST=test, PYJMC=pyjmc), set_sites=sites_, set_attrs=attrs_,
                 set_insertions=read_set_insertions(src, sites_, attrs_),
                 container_fields=[f for f in hdr["cleared"] if hdr["resets"][f]["mutable"]])
@@ -928,6 +1227,10 @@ def cstep(st) -> str:
         return f"AssignWhen {cstr(st[1])} {cfield(st[2])} {csrc(st[3])}"
     if st[0] == "guard":
         return f"Guard {cstr(st[1])}"
+    if isinstance(st[2], tuple):
+        if st[1] == "read_header":
+            return f"Run {cstr(st[1])} ({st[2][0]} header_reads)"
+        return f"Run {cstr(st[1])} ({st[2][0]} [" + "; ".join(cfield(f) for f in st[2][1]) + "])"
     return f"Run {cstr(st[1])} {st[2]}"
 
 
@@ -936,9 +1239,15 @@ def coq_text(t: dict) -> str:
          "From Coq Require Import String List Bool.", "From JMCV Require Import Model.Proc Run.C12.",
          "Import ListNotations.", "Open Scope string_scope.", ""]
     L.append("Definition U : list field := [" + "; ".join(cfield(f) for f in t["fields"]) + "].")
+    L.append("(* what the code reachable from compiling.read_header can see besides the Header's fields *)")
+    L.append("Definition header_reads : list field := [" + "; ".join(cfield(f) for f in t["header_readset"][1]) + "].")
     for name, steps in t["entries"].items():
         L.append(f"Definition steps_{name} : list step := [\n  " + ";\n  ".join(cstep(s) for s in steps) + "\n].")
     L.append("Definition entries : list (string * list step) := [(\"CLI\", steps_CLI); (\"TEST\", steps_TEST); (\"PYJMC\", steps_PYJMC)].")
+    L.append("Definition ambient : list field := [" + "; ".join(cfield(f) for f in t["ambient"]) + "].")
+    L.append("Definition ambient_writes : list ambient_write := [\n  " + ";\n  ".join(
+        f"mkAmbientWrite {cstr(w['file'] + ':' + w['func'] + ':' + str(w['line']) + ': ' + w['text'])} {cfield(('OS', w['field']))} "
+        f"{'true' if w['on_compile_path'] else 'false'} {'true' if w['restored'] else 'false'}" for w in t["ambient_writes"]) + "\n].")
     L.append("Definition set_sites : list set_site := [\n  " + ";\n  ".join(
         f"mkSetSite {cstr(s['file'] + ':' + s['func'] + ':' + s['expr'][:60])} {s['cls']}" for s in t["set_sites"]) + "\n].")
     return "\n".join(L) + "\n"
